@@ -117,8 +117,9 @@ CHECKS = {
             'transcribed; proved: error = value x sigma/100 (exact arithmetic) and the orientation step of one axis (printed '
             'decreasing is recognised; bins come out strictly increasing; every printed group keeps its own score)',
             'error_eq_value_times_sigma, decreasing_iff, orient_edges, orient_cells, energy_bins_increasing, '
-            'energy_score_attached. NOT proved: that the executable model `convert` composes this step correctly over the '
-            'energy / time / mu / phi axes (a tie lemma convert = orient is not done), the pyparsing grammar, the mesh / Green '
+            'energy_score_attached, and convert_energy_axis / convert_single / fillRows_single: on a response with the energy '
+            'axis only the executable model `convert` returns exactly the oriented edges and rows. NOT proved: the composition '
+            'of the step over the time / mu / phi axes inside `convert`, the pyparsing grammar, the mesh / Green '
             'bands / IFP / keff / sensitivity builders, the Apollo3 reader and picker. These are decided on every run by (a) '
             'bit-exact correspondence of `convert` with common.convert_spectrum + data_convertor.convert_data on generated '
             'token lists (all four axes, both printing orders, gaps, ragged sub-spectra: same exception class), with an '
